@@ -3,10 +3,13 @@
    contents, shortest distances, annotation sets as the read API reports them) by the documented
    formula in binary32 arithmetic, and demands bit equality, symmetry, finiteness, >= 0 and the
    documented special cases on the crate's values.  The theorems below are about the Gallina
-   transcription of src/similarity/defaults.rs, in EVERY number structure. PARTIAL: finiteness of the
-   float results is not a theorem (no rounding / overflow analysis); `expf` is an oracle. *)
-From Coq Require Import Sorted.
-From HpoV Require Import Gen.Consts Model.Base Model.Group Model.Onto Model.Query Model.Similarity Proofs.C04P.
+   transcription of src/similarity/defaults.rs, in EVERY number structure. Over the REALS (exact arithmetic,
+   information content -ln(n/N)) every score is >= 0 and every division is by a positive number, in
+   every ontology a Builder script builds (C04_exact_scores_nonnegative, C04_builder_scores_nonnegative).
+   PARTIAL: finiteness of the binary32 results is not a theorem (no rounding / overflow analysis);
+   `expf` is an oracle; the binary32 evaluation is executed bit for bit by the correspondence run. *)
+From Coq Require Import Sorted Reals.
+From HpoV Require Import Gen.Consts Model.Base Model.Group Model.Onto Model.Query Model.Similarity Model.Script Proofs.DistP Proofs.AnnotP Proofs.C04P Proofs.C04R Proofs.C04B.
 
 Theorem C04_self_is_one : forall F fadd fsub fmul fdiv fgt fis0 fzero fnzero fone ftwo fmone f_of_u16 fexp ic o k a b,
   t_id a = t_id b ->
@@ -54,6 +57,25 @@ Theorem C04_symmetric : forall F fadd fsub fmul fdiv fgt fis0 fzero fnzero fone 
       similarity F fadd fsub fmul fdiv fgt fis0 fzero fnzero fone ftwo fmone f_of_u16 fexp ic g o k b a = Ok r.
 Proof. exact similarity_symmetric. Qed.
 
+(* EXACT ARITHMETIC: over the reals, with information contents >= 0 on the ontology's terms and (when
+   neither term's is 0) no common ancestor more informative than either term, every score returned
+   is >= 0 — under the code's own guards no denominator is 0 or negative *)
+Theorem C04_exact_scores_nonnegative : forall (ic : kind -> term -> R) (T : term -> Prop),
+  (forall k t, T t -> (0 <= ic k t)%R) ->
+  forall o, (forall g ts, resolve_all o g = Ok ts -> Forall T ts) ->
+  forall g k a b r, T a -> T b ->
+    (ic k a <> 0%R -> ic k b <> 0%R ->
+     forall cs, resolve_all o (all_common_ancestor_ids a b) = Ok cs -> forall c, In c cs -> (ic k c <= ic k a)%R /\ (ic k c <= ic k b)%R) ->
+    simR ic g o k a b = Ok r -> (0 <= r)%R.
+Proof. exact similarity_nonneg. Qed.
+
+(* ... and these hypotheses hold in every ontology a Builder script builds, for the documented
+   information content -ln(n/N) of the inherited annotation sets *)
+Theorem C04_builder_scores_nonnegative : forall icf s codes o, run_script icf s = Ok (codes, Ok o) ->
+  forall g k ta tb r, In ta (ar_terms (o_arena o)) -> In tb (ar_terms (o_arena o)) ->
+    simR (icRo o) g o k ta tb = Ok r -> (0 <= r)%R.
+Proof. exact builder_similarity_nonneg. Qed.
+
 Print Assumptions C04_self_is_one.
 Print Assumptions C04_mutation_unannotated_zero.
 Print Assumptions C04_distance_ignores_kind.
@@ -61,3 +83,5 @@ Print Assumptions C04_lin_zero_denominator_guard.
 Print Assumptions C04_jc_zero_guard.
 Print Assumptions C04_resnik_is_zero_or_an_ancestor_ic.
 Print Assumptions C04_symmetric.
+Print Assumptions C04_exact_scores_nonnegative.
+Print Assumptions C04_builder_scores_nonnegative.
